@@ -1,27 +1,47 @@
 import PoaVerif.Lemmas.Quiet2.End
 /-
   The EndBlocker on a state satisfying `St ∧ Cm` (and the block-level side conditions): it succeeds, CometBFT accepts
-  its update list, the sets agree, `St` holds again, no `Gone` record is left.
+  its update list, the sets agree, `St` holds again, no record is left that was removed or jailed in this block.
 -/
 namespace PoaVerif
 namespace App
 
+theorem movePools_shape (x s2 : App) (a b : Int) (h : x.movePools a b = .ok s2) :
+    ∃ B NB, s2 = { x with bonded := B, notBonded := NB } := by
+  unfold movePools at h
+  split at h
+  · dsimp only at h
+    split at h
+    · cases h
+    · cases h; exact ⟨_, _, rfl⟩
+  · split at h
+    · dsimp only at h
+      split at h
+      · cases h
+      · cases h; exact ⟨_, _, rfl⟩
+    · cases h; exact ⟨x.bonded, x.notBonded, rfl⟩
+
+/-- how the EndBlocker relates the record of an operator after it to the one before it: same consensus key, same jailed
+    flag, and a record that is bonded afterwards was not touched at all -/
+def RecRel (v0 w : Val) : Prop := w.key = v0.key ∧ w.jailed = v0.jailed ∧ (w.status = .bonded → w = v0)
+
 theorem stakingEndBlock_St (s : App) (c : CSet) (m : St s) (k : Cm s c) (f : Fits2 s c) :
     ∃ ups s' c', s.stakingEndBlock = .ok (ups, s') ∧ Comet.applyChangeSet c ups = .ok c' ∧ Agree c' s' ∧ St s' ∧
-      (∀ v ∈ s'.vals, ¬ Gone v) ∧ s'.pending = s.pending ∧ s'.updated = s.updated ∧ s'.params = s.params ∧
+      (∀ v ∈ s'.vals, ¬ Leaving v) ∧ s'.pending = s.pending ∧ s'.updated = s.updated ∧ s'.params = s.params ∧
       s'.height = s.height ∧ s'.time = s.time ∧ s'.infos = s.infos ∧ 0 ≤ s'.lastTotal ∧ s'.lastTotal ≤ maxTotalPower ∧
-      (∀ o w, s'.getVal o = some w → ∃ v0, s.getVal o = some v0 ∧ (w = v0 ∨ (Gone v0 ∧ Unb w ∧ w.key = v0.key))) ∧
+      (∀ o w, s'.getVal o = some w → ∃ v0, s.getVal o = some v0 ∧ RecRel v0 w) ∧
       (∀ o v0, s.getVal o = some v0 → Active v0 → s'.getVal o = some v0) := by
   obtain ⟨hp, hx, _⟩ := pre_of_St s c m k f
   obtain ⟨a, u, hl, hu, hF, _⟩ := loops_total s c hp
   have hmem : ∀ op v, s.getVal op = some v → v ∈ s.vals := fun op v h => mem_of_getVal s op v h
   -- first loop
   obtain ⟨⟨L, hL, hLs⟩, hn⟩ := applyLoop_bonded2 s s.params.maxVals s.index _ a (by
-    intro e _ v hv hpos
-    rcases m.cls v (hmem _ _ hv) with h | h | h
+    intro e _ v hv hnj hpos
+    rcases m.cls v (hmem _ _ hv) with h | h | h | h
     · exact h.1
     · rw [h.2.2.1] at hpos; simp [powerOf] at hpos
-    · rw [h.2.2.1] at hpos; simp [powerOf] at hpos) ⟨s.last, rfl, m.lastSorted⟩ rfl hl
+    · rw [h.2.2.1] at hpos; simp [powerOf] at hpos
+    · rw [h.1] at hnj; cases hnj) ⟨s.last, rfl, m.lastSorted⟩ rfl hl
   have hLeq : ∀ o, alookup o L = alookup o s.last := by
     intro o
     have hal : a.app.last = L := by rw [hL]
@@ -34,14 +54,25 @@ theorem stakingEndBlock_St (s : App) (c : CSet) (m : St s) (k : Cm s c) (f : Fit
         have hc : cand v = true := by simp only [visitedB, hv, Bool.and_eq_true] at hvis; exact hvis.1
         have ha := active_of_cand s m v (hmem _ _ hv) hc
         have hvop := getVal_op _ _ _ hv
-        rw [h1, ← hvop, m.last v (hmem _ _ hv), lastOf_active v ha]
+        rw [h1, ← hvop, m.lastA v (hmem _ _ hv) ha]
     · have hvis' : visitedB s s.index o = false := by simpa using hvis
       have h1 := (hF.lastN o hvis').1
       rw [hal] at h1; exact h1
   have m1 : St a.app := by rw [hL]; exact St_last s L m hLeq hLs
   have hgetA : ∀ o, a.app.getVal o = s.getVal o := fun o => by rw [hL]; exact getVal_congr _ _ rfl _
-  -- the entries left for the second loop are the `Gone` records
-  have hgl : ∀ e ∈ a.last, ∃ v, a.app.getVal e.1 = some v ∧ Gone v := by
+  -- which records of `s` leave the set
+  have hleaving : ∀ o v, s.getVal o = some v → alookup o s.last ≠ none → visitedB s s.index o = false → Leaving v := by
+    intro o v hv hne hnv
+    have hvm := hmem _ _ hv
+    have hvop := getVal_op _ _ _ hv
+    rcases m.cls v hvm with h | h | h | h
+    · have := visited_of_active s m v hvm h
+      rw [hvop, hnv] at this; cases this
+    · exact Or.inl h
+    · exfalso; apply hne; rw [← hvop]; exact m.lastU v hvm h
+    · exact Or.inr ⟨h, (m.lastJ v hvm h.1).mp (by rw [hvop]; exact hne)⟩
+  -- the entries left for the second loop are those records
+  have hgl : ∀ e ∈ a.last, ∃ v, a.app.getVal e.1 = some v ∧ Leaving v := by
     intro e he
     obtain ⟨hnv, hne⟩ := (mem_remaining s c hp a hF e.1).mp (List.mem_map.mpr ⟨e, he, rfl⟩)
     cases hlq : alookup e.1 s.last with
@@ -50,18 +81,24 @@ theorem stakingEndBlock_St (s : App) (c : CSet) (m : St s) (k : Cm s c) (f : Fit
       have ex := m.lastOnly e.1 p hlq
       cases hv : s.getVal e.1 with
       | none => simp [hv] at ex
-      | some v =>
-        have hvm := hmem _ _ hv
-        have hvop := getVal_op _ _ _ hv
-        refine ⟨v, by rw [hgetA]; exact hv, ?_⟩
-        rcases m.cls v hvm with h | h | h
-        · have := visited_of_active s m v hvm h
-          rw [hvop, hnv] at this; cases this
-        · exact h
-        · rw [← hvop, m.last v hvm, lastOf_unb v h] at hlq; cases hlq
+      | some v => exact ⟨v, by rw [hgetA]; exact hv, hleaving e.1 v hv hne hnv⟩
   have hglnd : (a.last.map (·.1)).Nodup := sublist_nodup_keys hF.lastSub hp.lastNodup
-  obtain ⟨x2, ups2, h2, m2, f2, u2, sr2⟩ := unbondLoop_St a.last a.app a.updates 0 m1 hgl hglnd
-  have hmv : movePools x2 a.nb2b 0 = .ok x2 := by simp [movePools, hn]
+  obtain ⟨x2, ups2, T2, h2, m2, f2, u2, sr2⟩ := unbondLoop_St a.last a.app a.updates 0 m1 hgl hglnd
+  -- the pool transfer succeeds (potential-function argument of Lemmas/Pools) and touches the pools only
+  obtain ⟨upsT, sT, hT⟩ := applyUpdates_total s c hp ⟨m.sorted, f.poolNb, f.poolB⟩
+  have hmv : ∃ B NB, movePools x2 a.nb2b T2 = .ok { x2 with bonded := B, notBonded := NB } := by
+    unfold applyUpdates at hT
+    rw [hl] at hT
+    simp only at hT
+    unfold finishUpdates at hT
+    rw [h2] at hT
+    simp only at hT
+    cases hmv : movePools x2 a.nb2b T2 with
+    | error e => rw [hmv] at hT; cases hT
+    | ok s2 =>
+      obtain ⟨B, NB, e⟩ := movePools_shape x2 s2 _ _ hmv
+      exact ⟨B, NB, by rw [e]⟩
+  obtain ⟨B, NB, hmv⟩ := hmv
   -- the recorded total
   have hnn := idxPow_nonneg s s.index
   have hct : 0 ≤ Comet.total c := sumInts_nonneg _ (by
@@ -70,7 +107,7 @@ theorem stakingEndBlock_St (s : App) (c : CSet) (m : St s) (k : Cm s c) (f : Fit
     rw [← hex]; exact k.cNonneg e he1)
   have htot := f.total
   have hx2lt : x2.lastTotal = s.lastTotal := by rw [sr2.lastTotal, hL]
-  have hres : ∃ T, s.applyUpdates = .ok (ups2, { x2 with lastTotal := T }) ∧ 0 ≤ T ∧ T ≤ maxTotalPower := by
+  have hres : ∃ T, s.applyUpdates = .ok (ups2, { x2 with bonded := B, notBonded := NB, lastTotal := T }) ∧ 0 ≤ T ∧ T ≤ maxTotalPower := by
     unfold applyUpdates
     rw [hl]
     simp only
@@ -83,43 +120,98 @@ theorem stakingEndBlock_St (s : App) (c : CSet) (m : St s) (k : Cm s c) (f : Fit
       · rw [hx2lt]; exact f.lastTotal.2
     · exact ⟨a.total, rfl, by rw [hF.tot]; exact hnn, by rw [hF.tot]; omega⟩
   obtain ⟨T, h1, hT0, hT1⟩ := hres
-  have m3 : St { x2 with lastTotal := T } := St_congr x2 _ m2 rfl rfl rfl rfl rfl rfl rfl rfl rfl
+  have m3 : St { x2 with bonded := B, notBonded := NB, lastTotal := T } := St_congr x2 _ m2 rfl rfl rfl rfl rfl rfl rfl rfl rfl
   obtain ⟨c', hc⟩ := applyUpdates_accepted s _ c ups2 hp hx h1
   -- maturity
-  have hq3 : ∀ o ∈ ({ x2 with lastTotal := T } : App).ubq.flatMap (·.2), ∃ v, ({ x2 with lastTotal := T } : App).getVal o = some v ∧ Unb v := by
+  have hq3 : ∀ o ∈ ({ x2 with bonded := B, notBonded := NB, lastTotal := T } : App).ubq.flatMap (·.2),
+      ∃ v, ({ x2 with bonded := B, notBonded := NB, lastTotal := T } : App).getVal o = some v ∧ Queued v := by
     intro o ho
     rw [← entries_ops] at ho
     obtain ⟨e, he, heo⟩ := List.mem_map.mp ho
-    obtain ⟨v, hv, hu', _⟩ := m3.qRecs e he
+    obtain ⟨v, hv, hst, _⟩ := m3.qRecs e he
     rw [heo] at hv
-    exact ⟨v, hv, hu'⟩
-  have hqn : (({ x2 with lastTotal := T } : App).ubq.flatMap (·.2)).Nodup := by rw [← entries_ops]; exact m3.qNodup
+    refine ⟨v, hv, ?_⟩
+    rcases m3.cls v (mem_of_getVal _ o v hv) with h | h | h | h
+    · rw [h.1] at hst; cases hst
+    · rw [h.1] at hst; cases hst
+    · exact Or.inl h
+    · exact Or.inr ⟨h, hst⟩
+  have hqn : (({ x2 with bonded := B, notBonded := NB, lastTotal := T } : App).ubq.flatMap (·.2)).Nodup := by rw [← entries_ops]; exact m3.qNodup
   obtain ⟨s4, h4, m4, f4, k4, sr4, _⟩ := matureSlots_St _ _ m3 hq3 hqn
   have he : s.stakingEndBlock = .ok (ups2, s4) := by
     unfold stakingEndBlock
     rw [h1]
     simp only
-    have : ({ x2 with lastTotal := T } : App).unbondMature = .ok s4 := h4
+    have : ({ x2 with bonded := B, notBonded := NB, lastTotal := T } : App).unbondMature = .ok s4 := h4
     rw [this]
+  have hget3 : ∀ o, ({ x2 with bonded := B, notBonded := NB, lastTotal := T } : App).getVal o = x2.getVal o := fun o => getVal_congr _ _ rfl o
+  -- the record of every operator after the block, related to the one before it
+  have hrec : ∀ o w, s4.getVal o = some w → ∃ v0, s.getVal o = some v0 ∧ RecRel v0 w ∧ (Leaving v0 → ¬ Leaving w) := by
+    intro o w hw
+    -- through the second loop
+    have h23 : ∀ w2, x2.getVal o = some w2 → ∃ v0, s.getVal o = some v0 ∧ RecRel v0 w2 ∧ (Leaving v0 → Left w2) ∧ (¬ Leaving v0 → w2 = v0) := by
+      intro w2 hw2
+      by_cases hin : o ∈ a.last.map (·.1)
+      · obtain ⟨e, he1, heo⟩ := List.mem_map.mp hin
+        obtain ⟨v0, hv0, hg0⟩ := hgl e he1
+        rw [heo, hgetA] at hv0
+        obtain ⟨w', hw', hlf, hkj⟩ := u2 o hin
+        rw [hw2] at hw'; injection hw' with hw'
+        obtain ⟨hk, hj⟩ := hkj v0 (by rw [hgetA]; exact hv0)
+        refine ⟨v0, hv0, ⟨by rw [hw']; exact hk, by rw [hw']; exact hj, ?_⟩, fun _ => by rw [hw']; exact hlf, fun hn => absurd hg0 hn⟩
+        intro hb
+        rw [hw'] at hb
+        rcases hlf with hu | ⟨_, hs⟩
+        · rw [hu.1] at hb; cases hb
+        · rw [hs] at hb; cases hb
+      · rw [f2 o hin, hgetA] at hw2
+        refine ⟨w2, hw2, ⟨rfl, rfl, fun _ => rfl⟩, ?_, fun _ => rfl⟩
+        intro hlv
+        exfalso
+        apply hin
+        apply (mem_remaining s c hp a hF o).mpr
+        have hvm := hmem _ _ hw2
+        have hvop := getVal_op _ _ _ hw2
+        rcases hlv with hg | ⟨hj, hb⟩
+        · refine ⟨?_, ?_⟩
+          · rw [← hvop]; exact not_visited_of_not_active s m w2 hvm (fun ha => active_not_gone w2 ha hg)
+          · rw [← hvop, m.lastG w2 hvm hg]; simp
+        · refine ⟨?_, ?_⟩
+          · rw [← hvop]; exact not_visited_of_not_active s m w2 hvm (fun ha => active_not_jl w2 ha hj)
+          · rw [← hvop]; exact (m.lastJ w2 hvm hj.1).mpr hb
+    -- through maturity
+    rcases f4 o with e | e | ⟨v3, w3, hv3, hw3, hj3, hjw3, hk3, hs3⟩
+    · rw [e, hget3] at hw
+      obtain ⟨v0, hv0, hr, hlf, hnl⟩ := h23 w hw
+      refine ⟨v0, hv0, hr, ?_⟩
+      intro hlv hlw
+      rcases hlf hlv with hu | ⟨_, hs⟩ <;> rcases hlw with hg | ⟨_, hb⟩
+      · exact gone_not_unb w hg hu
+      · rw [hu.1] at hb; cases hb
+      · rw [hg.1] at hs; cases hs
+      · rw [hs] at hb; cases hb
+    · rw [e] at hw; cases hw
+    · rw [hw] at hw3; injection hw3 with hw3
+      rw [hget3] at hv3
+      obtain ⟨v0, hv0, ⟨r1, r2, _⟩, _, _⟩ := h23 v3 hv3
+      refine ⟨v0, hv0, ⟨by rw [hw3, hk3]; exact r1, by rw [hw3, hjw3.1, ← r2, hj3.1], ?_⟩, ?_⟩
+      · intro hb; rw [hw3, hs3] at hb; cases hb
+      · intro _ hlw
+        rcases hlw with hg | ⟨_, hb⟩
+        · rw [hw3] at hg; rw [hg.1] at hs3; cases hs3
+        · rw [hw3, hs3] at hb; cases hb
   refine ⟨ups2, s4, c', he, hc, stakingEndBlock_agree s s4 c c' ups2 hp he hc, m4, ?_, ?_, ?_, ?_, ?_, ?_, ?_, ?_, ?_, ?_, ?_⟩
-  · intro y hy hgy
+  · intro y hy hly
     have hgy4 := mem_vals_getVal s4 m4.sorted y hy
-    have h3 : ({ x2 with lastTotal := T } : App).getVal y.op = some y := by
-      rcases f4 y.op with e | e
-      · rw [← e]; exact hgy4
-      · rw [e] at hgy4; cases hgy4
-    have h3' : x2.getVal y.op = some y := by rw [← h3]; exact getVal_congr _ _ rfl _
-    by_cases hin : y.op ∈ a.last.map (·.1)
-    · obtain ⟨w, hw, hwu, _⟩ := u2 y.op hin
-      rw [h3'] at hw; injection hw with hw
-      rw [← hw] at hwu
-      exact gone_not_unb y hgy hwu
-    · rw [f2 y.op hin, hgetA] at h3'
-      have hym := hmem _ _ h3'
-      apply hin
-      apply (mem_remaining s c hp a hF y.op).mpr
-      refine ⟨not_visited_of_not_active s m y hym (fun ha => active_not_gone y ha hgy), ?_⟩
-      rw [m.last y hym, lastOf_gone y hgy]; simp
+    obtain ⟨v0, hv0, ⟨_, _, hbond⟩, hnl⟩ := hrec y.op y hgy4
+    -- a leaving record is bonded, hence untouched, hence was leaving before — and then it is not any more
+    have hb : y.status = .bonded := by
+      rcases hly with hg | ⟨_, hb⟩
+      · exact hg.1
+      · exact hb
+    have hyv : y = v0 := hbond hb
+    have hlv0 : Leaving v0 := hyv ▸ hly
+    exact hnl hlv0 hly
   · rw [sr4.pending]; show x2.pending = s.pending; rw [sr2.pending, hL]
   · rw [sr4.updated]; show x2.updated = s.updated; rw [sr2.updated, hL]
   · rw [sr4.params]; show x2.params = s.params; rw [sr2.params, hL]
@@ -129,21 +221,8 @@ theorem stakingEndBlock_St (s : App) (c : CSet) (m : St s) (k : Cm s c) (f : Fit
   · rw [sr4.lastTotal]; exact hT0
   · rw [sr4.lastTotal]; exact hT1
   · intro o w hw
-    have h3 : ({ x2 with lastTotal := T } : App).getVal o = some w := by
-      rcases f4 o with e | e
-      · rw [← e]; exact hw
-      · rw [e] at hw; cases hw
-    have h3' : x2.getVal o = some w := by rw [← h3]; exact getVal_congr _ _ rfl _
-    by_cases hin : o ∈ a.last.map (·.1)
-    · obtain ⟨e, he1, heo⟩ := List.mem_map.mp hin
-      obtain ⟨v0, hv0, hg0⟩ := hgl e he1
-      rw [heo, hgetA] at hv0
-      obtain ⟨w', hw', hwu', hwk'⟩ := u2 o hin
-      rw [h3'] at hw'; injection hw' with hw'
-      refine ⟨v0, hv0, Or.inr ⟨hg0, by rw [hw']; exact hwu', ?_⟩⟩
-      rw [hw']; exact hwk' v0 (by rw [hgetA]; exact hv0)
-    · rw [f2 o hin, hgetA] at h3'
-      exact ⟨w, h3', Or.inl rfl⟩
+    obtain ⟨v0, hv0, hr, _⟩ := hrec o w hw
+    exact ⟨v0, hv0, hr⟩
   · intro o v0 hv0 ha0
     have hv0m := hmem _ _ hv0
     have hvop0 := getVal_op _ _ _ hv0
@@ -153,13 +232,15 @@ theorem stakingEndBlock_St (s : App) (c : CSet) (m : St s) (k : Cm s c) (f : Fit
       have := visited_of_active s m v0 hv0m ha0
       rw [hvop0, hnv] at this; cases this
     have h2' : x2.getVal o = some v0 := by rw [f2 o hnin, hgetA]; exact hv0
-    have h3 : ({ x2 with lastTotal := T } : App).getVal o = some v0 := by rw [← h2']; exact getVal_congr _ _ rfl _
-    have hnq : o ∉ ({ x2 with lastTotal := T } : App).ubq.flatMap (·.2) := by
+    have h3 : ({ x2 with bonded := B, notBonded := NB, lastTotal := T } : App).getVal o = some v0 := by rw [hget3]; exact h2'
+    have hnq : o ∉ ({ x2 with bonded := B, notBonded := NB, lastTotal := T } : App).ubq.flatMap (·.2) := by
       intro hin
-      obtain ⟨w, hw, hwu⟩ := hq3 o hin
+      obtain ⟨w, hw, hwq⟩ := hq3 o hin
       rw [h3] at hw; injection hw with hw
-      rw [← hw] at hwu
-      exact active_not_unb v0 ha0 hwu
+      rw [← hw] at hwq
+      rcases hwq with hu | ⟨hj, _⟩
+      · exact active_not_unb v0 ha0 hu
+      · exact active_not_jl v0 ha0 hj
     rw [k4 o hnq]; exact h3
 
 end App
